@@ -1,5 +1,10 @@
 (* RunC12.v — executable entry point of the C12 model for the correspondence check.
-   input  = (rk rn expr)      return type kind (0 int, 1 uint, 2 bool), width, expression
+   input  = (rk rn expr meta) return type kind (0 int, 1 uint, 2 bool), width, expression,
+                              meta = (code k n a b fa fb): the fold the case is about:
+                              code 0..18 = index in [binops], 19 = unary minus, 20 = !,
+                              21 = none; operand kind k, width n, operand values a, b
+                              (signed; for shifts b = count), fa/fb = 1 when a negative
+                              operand is written T(-x) instead of -T(x)
    expr   = (0 v)             integer literal v >= 0
           | (1 e)             -e
           | (2 k n e)         intN(e) (k=0) / uintN(e) (k=1)
@@ -7,9 +12,11 @@
           | (4 b)             true / false
           | (5 e)             !e
           | (6 k n v)         run-time input of type k/n whose value is v
-   output = (0 v)             the program compiles; Compute returns v (unsigned wire bits)
-          | (1 class)         compile error of that class
-          | (2 class)         the compiler panics                                     *)
+   output = (0 v cls)         the program compiles; Compute returns v (unsigned wire bits)
+          | (1 class cls)     compile error of that class
+          | (2 class cls)     the compiler panics
+            cls = 2 when the fold is in [fold_exact_class], 1 when only in
+            [fold_ok_class], 0 otherwise (the harness computes the same number in Go) *)
 From Coq Require Import ZArith List Bool.
 From Mpc Require Import Base.Sx Lang.Fold.
 Import ListNotations.
@@ -38,12 +45,31 @@ Fixpoint expr_of_sx (fuel : nat) (s : sx) : expr :=
       else EIn (kind_of_Z (getZ (nthx 1 s))) (getZ (nthx 2 s)) (getZ (nthx 3 s))
   end.
 
+Definition class_of_meta (m : sx) : Z :=
+  let code := getZ (nthx 0 m) in
+  let k := kind_of_Z (getZ (nthx 1 m)) in
+  let n := getZ (nthx 2 m) in
+  let a := getZ (nthx 3 m) in
+  let b := getZ (nthx 4 m) in
+  let fa := getZ (nthx 5 m) in
+  let fb := getZ (nthx 6 m) in
+  if (code <? 0) || (20 <? code) then 0
+  else if code =? 20 then 2
+  else if code =? 19 then
+    if (a <? 0) && (fa =? 1) then 0
+    else if neg_exact_class k n a then 2 else if neg_ok_class k n a then 1 else 0
+  else
+    let op := nth (Z.to_nat code) binops OAdd in
+    if ((a <? 0) && (fa =? 1)) || (negb (is_shift op) && (b <? 0) && (fb =? 1)) then 0
+    else if fold_exact_class op k n a b then 2 else if fold_ok_class op k n a b then 1 else 0.
+
 Definition run_c12 (inp : sx) : sx :=
   let rk := kind_of_Z (getZ (nthx 0 inp)) in
   let rn := getZ (nthx 1 inp) in
   let e := expr_of_sx 64 (nthx 2 inp) in
+  let cls := SZ (class_of_meta (nthx 3 inp)) in
   match run_program rk rn e with
-  | Ok v => SL [SZ 0; SZ v]
-  | Err c => SL [SZ 1; SZ c]
-  | Panic c => SL [SZ 2; SZ c]
+  | Ok v => SL [SZ 0; SZ v; cls]
+  | Err c => SL [SZ 1; SZ c; cls]
+  | Panic c => SL [SZ 2; SZ c; cls]
   end.
